@@ -19,8 +19,9 @@ SPEC = {
         'empties item_list, dead_indices and the index map; operator aliases resolve to the named set operations and the '
         'in-place operators return self. Not decided: dead-interval merging/compaction thresholds in _add_dead/_cull, '
         'result ordering, set algebra of the multi-operand *_update forms.'
-        " T15.len: caller-supplied positions are normalised with the apparent length. T20.foreign: no method reads another instance's internal tables."),
-    'decided': ['apparent-length normalisation', 'no foreign internals', 'T2 tombstone/map/dead-index pairing and culling', 'T15 real vs apparent index spaces', 'T16 operand flattening',
+        " T15.len: caller-supplied positions are normalised with the apparent length. T20.foreign: no method reads another instance's internal tables."
+        ' T15.neg: the position-taking entry points normalise negative positions.'),
+    'decided': ['negative positions normalised', 'apparent-length normalisation', 'no foreign internals', 'T2 tombstone/map/dead-index pairing and culling', 'T15 real vs apparent index spaces', 'T16 operand flattening',
                 'T24 self-alias guard', 'T18 clear', 'operator alias closure'],
     'declined': ['dead-interval arithmetic and compaction thresholds', 'multi-operand set algebra', 'ordering of results'],
     'trusted_base': ['itertools.chain / islice semantics'], 'assumptions': [], 'exhaustive': True,
